@@ -63,7 +63,7 @@ func c13Enumerate(tier string, emit func(*eng.Case)) {
 	if tier == "thorough" {
 		every = 1
 	}
-	crossEmit(tier, "configs", every, func(c *eng.Case) {
+	crossEmit("C13", tier, "configs", every, func(c *eng.Case) {
 		if c.URL == "" {
 			c.URL = c13URL
 		}
